@@ -2,6 +2,7 @@ package main
 
 import (
 	"go/ast"
+	"go/constant"
 	"go/token"
 	"go/types"
 	"strings"
@@ -21,8 +22,14 @@ func runC08(c *Ctx) {
 	c.Rule("R08c", "Stmt.Pos is produced only in Scanner.emit as total-len(text) (other Stmt literals copy an existing Pos or use 0); the statement scanner and the lint report index the same string (string(f.Bytes()))", 4)
 	c.Rule("R08d", "advance/anchor agreement: addPos(len(M)-K) is dominated by a match of M anchored at s.input[s.pos-K:] (HasPrefix / FindString / EqualFold at pos==K) in the same function", 7)
 
+	c.Rule("R08e", "whitespace-class agreement: the class skipSpaces removes in front of a statement (and counts into total) contains the class emit strips from Stmt.Text, so Pos = total-len(text) lands on Text[0]", 1)
+
+	c.Rule("R08f", "strip-both-ends slices cannot go out of range: for every x[a:len(x)-b] in sql/migrate the conditions enclosing it (len tests, HasPrefix/HasSuffix with constant arguments) imply len(x) >= a+b; a prefix and a suffix that can overlap in one short string do not", 1)
+
 	p := c.Pkg(pMigrate)
 	info := p.TypesInfo
+	checkSpaceClass(c, info)
+	checkStripSlices(c)
 	isCur := func(e ast.Expr, names ...string) string {
 		for _, n := range names {
 			if isField(info, e, pMigrate, "Scanner", n) {
@@ -618,4 +625,220 @@ func shapeInit(info *types.Info, fi *FuncInfo) bool {
 		}
 	}
 	return ok && zeroed && seeded
+}
+
+// trimClass classifies the set of leading characters a strings.Trim* call removes:
+// "unicode" (unicode.IsSpace), "cutset:<chars>" (a constant cutset) or "" (unknown).
+func trimClass(info *types.Info, call *ast.CallExpr) string {
+	fn := calleeOf(info, call)
+	if fn == nil || fn.Pkg() == nil || fn.Pkg().Path() != "strings" {
+		return ""
+	}
+	switch fn.Name() {
+	case "TrimSpace":
+		return "unicode"
+	case "TrimLeftFunc", "TrimFunc", "TrimRightFunc":
+		if len(call.Args) == 2 {
+			var id *ast.Ident
+			switch a := ast.Unparen(call.Args[1]).(type) {
+			case *ast.SelectorExpr:
+				id = a.Sel
+			case *ast.Ident:
+				id = a
+			}
+			if id != nil {
+				if f, ok := info.ObjectOf(id).(*types.Func); ok && f.Pkg() != nil && f.Pkg().Path() == "unicode" && f.Name() == "IsSpace" {
+					return "unicode"
+				}
+			}
+		}
+	case "TrimLeft", "Trim", "TrimRight":
+		if len(call.Args) == 2 {
+			if k, ok := stringConst(info, call.Args[1]); ok {
+				return "cutset:" + k
+			}
+		}
+	}
+	return ""
+}
+
+// checkSpaceClass is R08e: Stmt.Pos is total-len(text) while Stmt.Text is the trimmed text, so
+// every character emit strips from the front of the text must already have been skipped (and
+// counted) by skipSpaces before the statement started.
+func checkSpaceClass(c *Ctx, info *types.Info) {
+	skip := c.LookupFunc(pMigrate, "Scanner", "skipSpaces")
+	emit := c.LookupFunc(pMigrate, "Scanner", "emit")
+	if skip == nil || emit == nil {
+		c.Unresolved("R08e", "Scanner.skipSpaces / Scanner.emit")
+		return
+	}
+	var skipCls, emitCls []string
+	var skipPos token.Pos
+	for _, call := range callsIn(skip.Decl.Body, true) {
+		if fn := calleeOf(info, call); fn != nil && fn.Pkg() != nil && fn.Pkg().Path() == "strings" && strings.HasPrefix(fn.Name(), "Trim") && len(call.Args) > 0 && isField(info, call.Args[0], pMigrate, "Scanner", "input") {
+			skipCls = append(skipCls, trimClass(info, call))
+			skipPos = call.Pos()
+		}
+	}
+	for _, call := range callsIn(emit.Decl.Body, true) {
+		fn := calleeOf(info, call)
+		if fn == nil || fn.Pkg() == nil || fn.Pkg().Path() != "strings" {
+			continue
+		}
+		switch fn.Name() {
+		case "TrimSpace", "TrimLeftFunc", "TrimFunc", "TrimLeft", "Trim":
+			emitCls = append(emitCls, trimClass(info, call))
+		}
+	}
+	if len(skipCls) != 1 || skipCls[0] == "" {
+		c.Unresolved("R08e", "the class of characters Scanner.skipSpaces trims (expected one strings.TrimLeft* call on s.input with a recognisable class)")
+		return
+	}
+	c.funcs[skip.Name], c.funcs[emit.Name] = true, true
+	for _, ec := range emitCls {
+		if ec == "" {
+			c.Unresolved("R08e", "the class of characters Scanner.emit strips from the statement text")
+			return
+		}
+	}
+	contains := func(outer, inner string) bool {
+		if outer == "unicode" {
+			return true
+		}
+		if inner == "unicode" {
+			return false
+		}
+		for _, r := range strings.TrimPrefix(inner, "cutset:") {
+			if !strings.ContainsRune(strings.TrimPrefix(outer, "cutset:"), r) {
+				return false
+			}
+		}
+		return true
+	}
+	ok := true
+	for _, ec := range emitCls {
+		ok = ok && contains(skipCls[0], ec)
+	}
+	c.Check("R08e", "Scanner.skipSpaces ⊇ Scanner.emit|leading whitespace class", skipPos, ok, "skipSpaces removes %q in front of a statement but emit strips %q from its text: a character of the second class that is not in the first stays in front of the text, and Stmt.Pos points at it instead of at Text[0]", skipCls[0], emitCls)
+}
+
+// minLenWith returns the length of the shortest string having prefix p and suffix s.
+func minLenWith(p, s string) int {
+	for n := max(len(p), len(s)); n < len(p)+len(s); n++ {
+		// the last len(s) bytes start at n-len(s); they overlap p on [n-len(s), len(p))
+		k := len(p) - (n - len(s))
+		if k >= 0 && k <= len(s) && p[len(p)-k:] == s[:k] {
+			return n
+		}
+	}
+	return len(p) + len(s)
+}
+
+// checkStripSlices is R08f.
+func checkStripSlices(c *Ctx) {
+	n := 0
+	c.AllFuncs(false, func(fi *FuncInfo) {
+		if fi.Pkg.PkgPath != pMigrate {
+			return
+		}
+		info := fi.Info()
+		pm := parentMap(fi.Decl.Body)
+		intConst := func(e ast.Expr) (int, bool) {
+			if e == nil {
+				return 0, true
+			}
+			if tv, ok := info.Types[e]; ok && tv.Value != nil && tv.Value.Kind() == constant.Int {
+				v, _ := constant.Int64Val(tv.Value)
+				return int(v), true
+			}
+			return 0, false
+		}
+		ast.Inspect(fi.Decl.Body, func(m ast.Node) bool {
+			se, ok := m.(*ast.SliceExpr)
+			if !ok || se.High == nil {
+				return true
+			}
+			xid, ok := ast.Unparen(se.X).(*ast.Ident)
+			if !ok {
+				return true
+			}
+			xobj := info.ObjectOf(xid)
+			// High = len(x) - b
+			hb, ok := ast.Unparen(se.High).(*ast.BinaryExpr)
+			if !ok || hb.Op != token.SUB {
+				return true
+			}
+			la := lenArg(info, hb.X)
+			lid, isID := la.(*ast.Ident)
+			if la == nil || !isID || info.ObjectOf(lid) != xobj {
+				return true
+			}
+			b, ok1 := intConst(hb.Y)
+			a, ok2 := intConst(se.Low)
+			if !ok1 || !ok2 || a+b == 0 {
+				return true
+			}
+			n++
+			c.funcs[fi.Name] = true
+			isX := func(e ast.Expr) bool {
+				id, ok := ast.Unparen(e).(*ast.Ident)
+				return ok && info.ObjectOf(id) == xobj
+			}
+			// facts of the enclosing if-bodies
+			bound, pre, suf := 0, "", ""
+			var child ast.Node = se
+			for p := pm[se]; p != nil; child, p = p, pm[p] {
+				ifs, isIf := p.(*ast.IfStmt)
+				if !isIf || child != ifs.Body {
+					continue
+				}
+				for _, f := range impliedFacts(ifs.Cond, true) {
+					switch e := ast.Unparen(f.expr).(type) {
+					case *ast.CallExpr:
+						fn := calleeOf(info, e)
+						if !f.val || fn == nil || fn.Pkg() == nil || fn.Pkg().Path() != "strings" || len(e.Args) != 2 || !isX(e.Args[0]) {
+							continue
+						}
+						k, isConst := stringConst(info, e.Args[1])
+						if !isConst {
+							continue
+						}
+						switch fn.Name() {
+						case "HasPrefix":
+							pre = k
+						case "HasSuffix":
+							suf = k
+						}
+					case *ast.BinaryExpr:
+						if !f.val {
+							continue
+						}
+						if l := lenArg(info, e.X); l != nil && isX(l) {
+							if k, ok := intConst(e.Y); ok {
+								switch e.Op {
+								case token.GEQ:
+									bound = max(bound, k)
+								case token.GTR:
+									bound = max(bound, k+1)
+								case token.EQL:
+									bound = max(bound, k)
+								}
+							}
+						}
+						if e.Op == token.NEQ && isX(e.X) {
+							if k, ok := stringConst(info, e.Y); ok && k == "" {
+								bound = max(bound, 1)
+							}
+						}
+					}
+				}
+			}
+			bound = max(bound, minLenWith(pre, suf))
+			c.Check("R08f", fi.Name+"|"+types.ExprString(se), se.Pos(), bound >= a+b, "%s: %s needs len(%s) >= %d but the enclosing conditions only imply len >= %d (prefix %q and suffix %q can be the same bytes of a shorter string): the slice panics on that input", fi.Name, types.ExprString(se), xid.Name, a+b, bound, pre, suf)
+			return true
+		})
+	})
+	if n == 0 {
+		c.Unresolved("R08f", "strip-both-ends slices in sql/migrate (expected the quoted-delimiter unquoting in Scanner.delimCmd)")
+	}
 }
